@@ -5,6 +5,7 @@ import (
 	"math/rand"
 	"os"
 	"runtime/debug"
+	"strings"
 	"sync"
 
 	"verif/harness/drivers/c15"
@@ -49,6 +50,10 @@ func runC15(o opts) error {
 			scns = append(scns, c15.GenReparent(4, 5, rng, 0)...)
 			scns = append(scns, c15.GenRandom(rng, 6000, false, true)...)
 			scns = append(scns, c15.GenRandom(rng, 4000, true, true)...)
+			scns = append(scns, c15.GenNested(2, 4, rng, 0)...)
+			scns = append(scns, c15.GenMidRoute(2, 4, rng, 0)...)
+			scns = append(scns, c15.GenTick(2, 4, rng, 0)...)
+			scns = append(scns, c15.GenSelfNest(4, rng, 0)...)
 		} else {
 			scns = append(scns, c15.GenRoute(4, rng, 0)...)
 			scns = append(scns, c15.GenRoute(5, rng, 24)[118*2:]...)
@@ -60,7 +65,24 @@ func runC15(o opts) error {
 			scns = append(scns, c15.GenReparent(5, 5, rng, 32)...)
 			scns = append(scns, c15.GenRandom(rng, 160, false, true)...)
 			scns = append(scns, c15.GenRandom(rng, 60, true, true)...)
+			scns = append(scns, c15.GenNested(2, 3, rng, 0)...)
+			scns = append(scns, c15.GenNested(4, 4, rng, 16)...)
+			scns = append(scns, c15.GenMidRoute(2, 3, rng, 0)...)
+			scns = append(scns, c15.GenMidRoute(4, 4, rng, 8)...)
+			scns = append(scns, c15.GenTick(2, 3, rng, 0)...)
+			scns = append(scns, c15.GenTick(4, 4, rng, 8)...)
+			scns = append(scns, c15.GenSelfNest(3, rng, 0)...)
 		}
+	}
+	// -x kind=<prefix>: only the scenarios whose kind starts with prefix (development aid)
+	if strings.HasPrefix(o.extra, "kind=") {
+		var keep []*c15.Scn
+		for _, sc := range scns {
+			if strings.HasPrefix(sc.Kind, o.extra[5:]) {
+				keep = append(keep, sc)
+			}
+		}
+		scns = keep
 	}
 	sink, err := trace.NewSink(o.out, o.shards)
 	if err != nil {
